@@ -246,6 +246,17 @@ pub fn gen_c08(g: &mut Gen, tier: &str) {
             g.push(v.0 < 0, Input::new("time_of_dt", vec![v.0, v.1, v.2]));
         }
     }
+    // setters, clears and offset changes of a Time (their own oracles are those of C09 / C10; here: the result stays inside the day)
+    for k in 0..n / 4 {
+        let (tn, to) = (if k % 3 == 0 { *g.rng.pick(&[0i128, 1, NPD - 1, NPD - NPS, NPS - 1, 3_600 * NPS]) } else { nanos_pool(g) }, off_pool(g));
+        let tf = 4 + (g.rng.next() % 6) as i128;
+        let tx = set_value(g, tf);
+        g.push(true, Input::new("time_set", vec![tf, tn, to, tx]));
+        let cw = 3 + (g.rng.next() % 6) as i128;
+        g.push(true, Input::new("time_clear", vec![cw, tn, to]));
+        let o2 = if k % 4 == 0 { *g.rng.pick(&[0i128, 86_399, -86_399, 1, -1]) } else { off_pool(g) };
+        g.push(true, Input::new(if k % 2 == 0 { "time_set_offset" } else { "time_as_offset" }, vec![tn, to, o2]));
+    }
     // Times obtained from text (Time::parse, Time::from_str): also "obtainable through the public API"
     crate::text::gen_time_text(g, n / 4);
 }
